@@ -5,7 +5,7 @@ props_sorted / props_last_wins (coq/C16/Properties.v); correspondence = extracte
 rkcommon::xml::readXML (ASan+UBSan, 3 s watchdog per file) on the same files.  The rendered
 documents are produced by the extracted Coq function Render.render_doc from laid-out documents
 inside Render.wf_doc (= the premise of parse_render) and compared with the extracted Render.doc_of."""
-import ast, json, os, re, sys
+import ast, json, os, re, sys, time
 import vlib
 sys.path.insert(0, os.path.dirname(os.path.abspath(__file__)))
 import factgen  # noqa: E402
@@ -345,7 +345,7 @@ def run_impl(ctx, exe, scratch, lines):
     watchdog fires: line HANG), note the killing case and continue after it in fork mode (at most
     25 further abnormal cases are run, the rest is SKIPPED).  Returns (out_lines, crash_reports)."""
     out, reports = [], {}
-    rc, o, err = ctx.run_exe(exe, [scratch], stdin="\n".join(lines) + "\n", timeout=1500)
+    rc, o, err = ctx.run_exe(exe, [scratch], stdin="\n".join(lines) + "\n", timeout=ctx.pick(150, 1200))
     got = o.split("\n")[:-1] if o.endswith("\n") else [x for x in o.split("\n") if x]
     out += got[:len(lines)]
     if len(out) < len(lines):
@@ -355,7 +355,7 @@ def run_impl(ctx, exe, scratch, lines):
         reports[n] = err[-2500:]
         rest = lines[n + 1:]
         if rest:
-            rc2, o2, err2 = ctx.run_exe(exe, [scratch, "fork"], stdin="\n".join(rest) + "\n", timeout=3000)
+            rc2, o2, err2 = ctx.run_exe(exe, [scratch, "fork"], stdin="\n".join(rest) + "\n", timeout=ctx.pick(150, 1200))
             got2 = o2.split("\n")[:-1] if o2.endswith("\n") else o2.split("\n")
             out += got2[:len(rest)]
             while len(out) < len(lines):
@@ -471,6 +471,28 @@ def writer_expected(ops):
     return "(- {} - [%s])" % " ".join(kids)
 
 
+def py_writer(ops):
+    """independent python rendition of the Writer: output bytes, or None when an assert of the Writer fires"""
+    out, stack = b"", []
+    cs = lambda x: x.split(b"\0")[0]  # noqa: E731
+    for o in ops:
+        if o[0] == "H":
+            out += b'<?xml version="' + cs(o[1]) + b'"?>\n'
+        elif o[0] == "O":
+            out += b"  " * len(stack) + b"<" + cs(o[1])
+            stack.append(o[1])
+        elif o[0] == "P":
+            if not stack:
+                return None
+            out += b" " + cs(o[1]) + b'="' + cs(o[2]) + b'"'
+        elif o[0] == "C":
+            if not stack:
+                return None
+            stack.pop()
+            out += b"/>\n"
+    return out
+
+
 def writer_cases(ctx, r):
     cases = []                                        # (kind, ops, keys)
     # exhaustive: every sequence of at most 4 operations over a small alphabet
@@ -525,21 +547,33 @@ def writer_check(ctx, model, wexe, scratch):
     r = ctx.rng("writer")
     cases = writer_cases(ctx, r)
     lines = [ser_ops(ops, keys) for (_, ops, keys) in cases]
-    rc, ml, merr = vlib.run_lines(ctx, model, ["writer"], lines, timeout=900)
-    if rc != 0 or len(ml) != len(lines):
-        ctx.broken.append("model driver (writer) failed rc=%s lines=%d/%d %s" % (rc, len(ml), len(lines), merr[-300:]))
-        return
-    run_idx = [i for i, m in enumerate(ml) if m not in ("ABORT", "BADCASE")]
-    if any(m == "BADCASE" for m in ml):
-        ctx.broken.append("writer driver rejected a generated op sequence")
-    rc, o, err = ctx.run_exe(wexe, [scratch], stdin="\n".join(lines[i] for i in run_idx) + "\n", timeout=1500)
+    ml = None
+    if model:
+        rc, ml, merr = vlib.run_lines(ctx, model, ["writer"], lines, timeout=200)
+        if rc != 0 or len(ml) != len(lines):
+            ctx.broken.append("model driver (writer) failed rc=%s lines=%d/%d %s -- python oracle only" % (rc, len(ml), len(lines), merr[-300:]))
+            ml = None
+    have_model = ml is not None
+    pyw = [py_writer(ops) for (_, ops, _) in cases]
+    if have_model:
+        for i, m in enumerate(ml):
+            if (m == "ABORT") != (pyw[i] is None) or (pyw[i] is not None and m.split(" ")[0] != hx(pyw[i])):
+                ctx.broken.append("python Writer oracle disagrees with WriterModel on %s: %s" % (lines[i][:120], m[:120]))
+                break
+        run_idx = [i for i, m in enumerate(ml) if m not in ("ABORT", "BADCASE")]
+        if any(m == "BADCASE" for m in ml):
+            ctx.broken.append("writer driver rejected a generated op sequence")
+    else:                                             # no model: the python Writer decides which sequences are assert-free
+        run_idx = [i for i in range(len(cases)) if pyw[i] is not None]
+        ml = [None] * len(cases)
+    rc, o, err = ctx.run_exe(wexe, [scratch], stdin="\n".join(lines[i] for i in run_idx) + "\n", timeout=150)
     il = o.split("\n")
     ts = il[0] if il else ""
     il = il[1:]
     import struct
     want = "TOSTRING " + " ".join("%g" % struct.unpack("f", struct.pack("f", x))[0]
                                   for x in (0.0, 1.5, -2.25, 1e10, 1e-5, 3.14159274, 123456.789, 100000.0, 1000000.0)) + " | 1 -0.5 0.001"
-    if ts != want:
+    if ts != want and ts != "TOSTRING-NOT-BUILT":
         ctx.violation("xml::toString does not format like operator<< / %g", {"observed": ts, "required": want})
     hist = {"abort_by_assert": len(lines) - len(run_idx)}
     bad_model, bad_tree, outside_not_read_back = [], [], 0
@@ -548,8 +582,11 @@ def writer_check(ctx, model, wexe, scratch):
         kind, ops, keys = cases[i]
         hist[kind] = hist.get(kind, 0) + 1
         parts = got.split(" ")
-        if got != ml[i]:
+        if have_model and got != ml[i]:
             bad_model.append((i, got))
+        elif not have_model and got.split(" ")[0] != hx(pyw[i]):
+            bad_model.append((i, got))
+            ml[i] = hx(pyw[i]) + " <bytes required by the python Writer oracle; model not available>"
         elif kind == "flat" and (len(parts) < 2 or got.split(" acc")[0].split(" ", 1)[1] != writer_expected(ops)):
             bad_tree.append((i, got))
         elif kind != "flat" and " THROW" in got:
@@ -593,10 +630,64 @@ def first_failing_fact(ctx):
     return name
 
 
+def stage(ctx, name, fn, default=None):
+    """run one stage; an exception is recorded (stage + last traceback line) and the run continues"""
+    try:
+        return fn()
+    except Exception as ex:                                       # noqa: BLE001
+        import traceback
+        tb = traceback.format_exc().strip().splitlines()
+        where = [ln.strip() for ln in tb if ln.strip().startswith("File ")][-1:] or [""]
+        ctx.broken.append("stage '%s' raised %r at %s -- the run continues without it" % (name, ex, where[0][:160]))
+        ctx.log("stage %s raised %r" % (name, ex))
+        return default
+
+
+WIDE_SRC = ["rkcommon/xml/XML.cpp", "rkcommon/os/FileName.cpp", "rkcommon/common.cpp", "rkcommon/os/library.cpp",
+            "rkcommon/utility/demangle.cpp", "rkcommon/memory/malloc.cpp"]
+BUDGET_S = 200            # wall-clock guard: optional stages are skipped beyond it
+
+
+def build_harnesses(ctx):
+    """both harnesses use the public interface only.  Each build is independent; a failed build is retried once
+    with a wider list of repository sources (a changed header may need more of the library) and, for the writer
+    harness, without the toString probe."""
+    jobs = [dict(sources=["harness.cpp"], out="harness", repo_sources=REPO_SRC, sanitize="asan"),
+            dict(sources=["writer_harness.cpp"], out="writer_harness", repo_sources=REPO_SRC, sanitize="asan")]
+    nb = len(ctx.broken)
+    exe, wexe = ctx.cxx_many(jobs)
+    wide = [s for s in WIDE_SRC if os.path.exists(os.path.join(ctx.repo, s))]
+    if not exe:
+        exe = ctx.cxx(["harness.cpp"], "harness", repo_sources=wide, sanitize="asan", libs=["-ldl"])
+    if not wexe:
+        wexe = ctx.cxx(["writer_harness.cpp"], "writer_harness", repo_sources=wide, sanitize="asan", libs=["-ldl"])
+    if not wexe:
+        wexe = ctx.cxx(["writer_harness.cpp"], "writer_harness", repo_sources=wide, sanitize="asan", libs=["-ldl"], flags=["-DNO_TOSTRING"])
+        if wexe:
+            ctx.broken.append("writer harness only builds without the xml::toString probe (toString changed or removed)")
+    # keep one 'harness build' entry per harness that finally failed; drop the entries of attempts that were repaired
+    fails = [b for b in ctx.broken[nb:] if b.startswith("harness build")]
+    for b in fails:
+        ctx.broken.remove(b)
+    if not exe:
+        ctx.broken.append("harness build harness (reader): does not compile/link against this tree (see log)")
+    if not wexe:
+        ctx.broken.append("harness build writer_harness: does not compile/link against this tree (see log)")
+    return exe, wexe
+
+
 def run(ctx):
+    try:
+        _run(ctx)
+    except Exception as ex:                                       # noqa: BLE001  (never lose the evidence file)
+        import traceback
+        ctx.broken.append("check raised %r: %s" % (ex, traceback.format_exc().strip().splitlines()[-3:]))
+
+
+def _run(ctx):
     sys.setrecursionlimit(10000)
-    notes = source_facts(ctx)
-    res = ctx.coq_check(("Properties.v", "PropertiesFacts.v"))
+    notes = stage(ctx, "fact extraction", lambda: source_facts(ctx), ["fact extraction raised"])
+    res = stage(ctx, "coq build", lambda: ctx.coq_check(("Properties.v", "PropertiesFacts.v")), {})
     bad_facts = [t for t in FACT_THMS if not res.get(t)]
     ctx.cov["source_obligations"] = len(FACT_THMS)
     ctx.cov["source_obligations_broken"] = bad_facts
@@ -607,21 +698,40 @@ def run(ctx):
                              "function in rkcommon/xml/XML.cpp no longer is the program whose meaning was proved equal to Model.v); "
                              "extractor notes: %s" % (first, "; ".join(notes[:4]) or "none"))
         ctx.log("source-derived obligation broken, first failing lemma: %s; notes: %s" % (first, notes[:4]))
-    model = ctx.extract(snippets=["conv_N.ml"])
-    exe, wexe = ctx.cxx_many([dict(sources=["harness.cpp"], out="harness", repo_sources=REPO_SRC, sanitize="asan"),
-                              dict(sources=["writer_harness.cpp"], out="writer_harness", repo_sources=REPO_SRC, sanitize="asan")])
-    if not model or not exe or not wexe:
-        return
+    model = stage(ctx, "extraction / OCaml model build", lambda: ctx.extract(snippets=["conv_N.ml"]))
+    exe, wexe = stage(ctx, "harness builds", lambda: build_harnesses(ctx), (None, None))
+    if not model:
+        ctx.log("model not available: the harnesses run with the independent oracles only (sanitizers, watchdog, exception type, "
+                "python render/expect oracle); model-vs-code comparison skipped")
+    ctx.cov["stages"] = {"model": bool(model), "reader_harness": bool(exe), "writer_harness": bool(wexe)}
     scratch = os.path.join(ctx.build, "case.xml")
-    inventory_check(ctx)
-    if not getattr(ctx, "replay", None):
-        writer_check(ctx, model, wexe, os.path.join(ctx.build, "writer.xml"))
+    stage(ctx, "inventory", lambda: inventory_check(ctx))
+    if not exe and not wexe:
+        return
+    if not exe:
+        stage(ctx, "writer differential", lambda: writer_check(ctx, model, wexe, os.path.join(ctx.build, "writer.xml")))
+        return
+    try:
+        reader_check(ctx, model, exe, scratch)
+    except Exception as ex:                                       # noqa: BLE001
+        import traceback
+        ctx.broken.append("stage 'reader differential' raised %r: %s" % (ex, traceback.format_exc().strip().splitlines()[-2:]))
+    if wexe and not getattr(ctx, "replay", None):
+        if time.time() - ctx.t0 > BUDGET_S:
+            ctx.broken.append("wall-clock budget (%d s) used up before the writer differential: skipped" % BUDGET_S)
+        else:
+            stage(ctx, "writer differential", lambda: writer_check(ctx, model, wexe, os.path.join(ctx.build, "writer.xml")))
+    if ctx.thorough():
+        stage(ctx, "coqchk", lambda: ctx.coq_thorough_chk(["C16.Properties", "C16.PropertiesFacts"]))
+
+
+def reader_check(ctx, model, exe, scratch):
 
     if getattr(ctx, "replay", None):
         doc = json.load(open(ctx.replay))
         lines = [doc["input_hex"]]
         il, rep = run_impl(ctx, exe, scratch, lines)
-        rc, ml, _ = vlib.run_lines(ctx, model, [], lines)
+        ml = vlib.run_lines(ctx, model, [], lines)[1] if model else ["<no model>"]
         ctx.log("replay input=%r impl=%s model=%s" % (bytes.fromhex(lines[0]) if lines[0] != "-" else b"", il[0], ml[0]))
         if il[0].startswith("CRASH") or il[0] == "HANG" or il[0].startswith("THROW-OTHER") or il[0] != doc.get("required", il[0]):
             ctx.violation("replayed input still fails", {"input_hex": lines[0], "observed": il[0], "required": doc.get("required")})
@@ -641,12 +751,19 @@ def run(ctx):
     for depth in (64, 200):
         docs.append(deep_doc(depth))
     ctx.cov["max_nesting_depth_exercised"] = 200
-    rc, rl, rerr = vlib.run_lines(ctx, model, ["render"], [ser_doc(d) for d in docs], timeout=900)
-    if rc != 0 or len(rl) != len(docs):
-        ctx.broken.append("model driver (render) failed rc=%s lines=%d/%d %s" % (rc, len(rl), len(docs), rerr[-300:]))
-        return
+    rl = None
+    if model:
+        rc, rl, rerr = vlib.run_lines(ctx, model, ["render"], [ser_doc(d) for d in docs], timeout=200)
+        if rc != 0 or len(rl) != len(docs):
+            ctx.broken.append("model driver (render) failed rc=%s lines=%d/%d %s -- falling back to the python renderer/oracle"
+                              % (rc, len(rl), len(docs), rerr[-300:]))
+            rl = None
     feats = {}
-    for d, ln in zip(docs, rl):
+    if rl is None:                                    # no model: python's own render + oracle (independent of Coq)
+        for d in docs:
+            features(d, feats)
+            cases.append(("tree", render_doc(d), expect_doc(d), count_nodes(d)))
+    for d, ln in (zip(docs, rl) if rl is not None else ()):
         parts = ln.split(" ", 2)
         if len(parts) != 3 or parts[0] not in ("WF", "NOTWF"):
             ctx.broken.append("render driver rejected a generated document: %s" % ln[:100])
@@ -715,10 +832,15 @@ def run(ctx):
         cases.append(("rand", bytes(r.choice(alpha) for _ in range(r.randint(0, 24))), None, 0))
 
     lines = [hx(b) for (_, b, _, _) in cases]
-    rc, mlines, merr = vlib.run_lines(ctx, model, [], lines, timeout=1500)
-    if rc != 0 or len(mlines) != len(lines):
-        ctx.broken.append("model driver failed rc=%s lines=%d/%d %s" % (rc, len(mlines), len(lines), merr[-300:]))
-        return
+    mlines = None
+    if model:
+        rc, mlines, merr = vlib.run_lines(ctx, model, [], lines, timeout=300)
+        if rc != 0 or len(mlines) != len(lines):
+            ctx.broken.append("model driver failed rc=%s lines=%d/%d %s -- model-vs-code comparison skipped" % (rc, len(mlines), len(lines), merr[-300:]))
+            mlines = None
+    have_model = mlines is not None
+    if not have_model:
+        mlines = ["<model not available: a document or std::runtime_error>"] * len(lines)
     ilines, reports = run_impl(ctx, exe, scratch, lines)
     ctx.count(len(cases))
 
@@ -743,11 +865,11 @@ def run(ctx):
             others.append(i)
         elif exp is not None and il != exp:
             tree_fail.append(i)
-        elif il != ml:
+        elif have_model and il != ml:
             mism.append(i)
-        if exp is not None and ml != exp:
+        if have_model and exp is not None and ml != exp:
             ctx.broken.append("model disagrees with the render oracle on %s: model=%s oracle=%s" % (lines[i][:200], ml[:120], exp[:120]))
-        if ml in ("OOB", "OUTOFFUEL"):
+        if have_model and ml in ("OOB", "OUTOFFUEL"):
             ctx.broken.append("model returned %s on %s (contradicts parse_in_bounds/parse_total)" % (ml, lines[i][:200]))
     ctx.cov["outcome_histogram"] = hist
     ctx.cov["input_size_histogram"] = {str(k): v for k, v in sorted(sizes.items())}
@@ -775,7 +897,7 @@ def run(ctx):
     # memory safety / totality: sanitizer reports, crashes, wrong exception type
     if crashes:
         pick = smallest(crashes)[:3]
-        rc, old, _ = vlib.run_lines(ctx, model, ["old"], [lines[i] for i in pick])
+        old = vlib.run_lines(ctx, model, ["old"], [lines[i] for i in pick])[1] if model else []
         for n, i in enumerate(pick):
             rc1, o1, e1 = ctx.run_exe(exe, [scratch], stdin=lines[i] + "\n", timeout=60)
             ctx.violation("readXML reads outside the file's bytes / crashes (%d of %d files): %s" % (len(crashes), len(cases), asan_summary(e1)),
@@ -811,5 +933,3 @@ def run(ctx):
                         "XML.cpp passes a plain char (negative for bytes >= 0x80) to isalpha/isdigit/isspace: undefined by the C standard, defined "
                         "by glibc (its tables cover -128..255); the position x byte sweep runs all 256 byte values through every such call site "
                         "under ASan+UBSan and finds no report and the model's answer (no class) on this platform"]
-    if ctx.thorough():
-        ctx.coq_thorough_chk(["C16.Properties", "C16.PropertiesFacts"])
